@@ -6,11 +6,23 @@
   path-info split, mod_cgi envp), Model/Fcgi.lean (fcgi_create_env, fcgi_env_add,
   fcgi_stdin_append + FastCGI receiver), Model/Scgi.lean (scgi_create_env: netstring, uwsgi
   packet + receivers), Model/ProxyReq.lean (proxy_create_env, proxy_stdin_append).
+
+  Clause map (property statement -> theorem): header->variable mapping: c09_varname,
+  c09_header_vars_sound/_complete, c09_no_override; meta-variables: c09_meta_rfc3875,
+  c09_content_length_first, c09_script_name_path_info, c09_query_after_first_qmark_partial;
+  well-formed + exact + length-delimited message: c09_fcgi_roundtrip/_e2e/_truncated_never_complete/
+  _authorizer, c09_scgi_roundtrip/_e2e, c09_uwsgi_roundtrip/_e2e, c09_cgi_envp_roundtrip,
+  c09_proxy_head_framing/_hop_by_hop/_fields_complete/_decodes_partial, c09_proxy_request;
+  HTTP/2 DATA: c09_h2_data_body, c09_h2_ready_iff_exact.  Correspondence-only: client framing
+  (Content-Length / chunked) and network segmentation, temp-file spooling, stream-request-body
+  modes, the mod_cgi stdin path, everything about timing.
 -/
 import LtVerif.Proofs.Cgi
 import LtVerif.Proofs.FcgiRun
 import LtVerif.Proofs.Scgi
 import LtVerif.Proofs.Proxy
+import LtVerif.Proofs.ProxyHead
+import LtVerif.Proofs.CgiE2E
 import LtVerif.Extracted.H1Tables
 namespace LtVerif.C09
 open LtVerif B
@@ -47,27 +59,8 @@ theorem c09_header_vars_sound (hs : List (Bytes × Bytes)) :
       p.1 ≠ ofString "HTTP_PROXY" ∧ p.1 ∉ metaNames ∧
       ∃ k, (k, p.2) ∈ hs ∧ p.2 ≠ [] ∧ eqIcase k (ofString "Proxy") = false ∧
         ((eqIcase k (ofString "Content-Type") = true ∧ p.1 = ofString "CONTENT_TYPE") ∨
-         (eqIcase k (ofString "Content-Type") = false ∧ p.1 = encodeVarname true k)) := by
-  intro p hp
-  simp only [headerVars, List.mem_filterMap] at hp
-  obtain ⟨⟨k, v⟩, hmem, hv⟩ := hp
-  simp only [headerVar] at hv
-  by_cases h1 : v.isEmpty = true
-  · simp [h1] at hv
-  · by_cases h2 : eqIcase k (ofString "Proxy") = true
-    · simp [h1, h2] at hv
-    · have hvne : v ≠ [] := by intro e; apply h1; rw [e]; rfl
-      have h2' : eqIcase k (ofString "Proxy") = false := by simpa using h2
-      by_cases h3 : eqIcase k (ofString "Content-Type") = true
-      · simp only [h1, Bool.false_eq_true, ↓reduceIte, h2, h3, Option.some.injEq] at hv
-        subst hv
-        exact ⟨by show ofString "CONTENT_TYPE" ≠ ofString "HTTP_PROXY"; decide,
-               contentType_not_meta, k, hmem, hvne, h2', Or.inl ⟨h3, rfl⟩⟩
-      · simp only [h1, Bool.false_eq_true, ↓reduceIte, h2, h3, Option.some.injEq] at hv
-        subst hv
-        refine ⟨?_, encodeVarname_not_meta k, k, hmem, hvne, h2', Or.inr ⟨by simpa using h3, rfl⟩⟩
-        intro e
-        exact h2 ((encodeVarname_proxy_iff k).mp e)
+         (eqIcase k (ofString "Content-Type") = false ∧ p.1 = encodeVarname true k)) :=
+  headerVars_sound hs
 
 /-- ... and nothing is lost: every field with a value, other than Proxy, is passed with
     its value unchanged -/
@@ -96,43 +89,69 @@ theorem c09_header_ids :
 
 /-! ## meta-variables (RFC 3875 4.1) -/
 
-/-- http_cgi_headers(): the request-line, body-length and script variables carry exactly the
-    request's values, each at most once, for every request and option set -/
-theorem c09_meta_rfc3875 (o : CgiOpts) (r : CgiReq) (v : Bytes) :
-    (("QUERY_STRING", v) ∈ cgiMetaS o r ↔ v = r.query) ∧
-    (("REQUEST_URI", v) ∈ cgiMetaS o r ↔ v = requestUri o.stripRequestUri r.targetOrig) ∧
-    (("CONTENT_LENGTH", v) ∈ cgiMetaS o r ↔ o.authorizer = false ∧ v = intDec r.bodyLen) ∧
-    (("SCRIPT_NAME", v) ∈ cgiMetaS o r ↔ o.authorizer = false ∧ v = r.path) ∧
-    (("PATH_INFO", v) ∈ cgiMetaS o r ↔ o.authorizer = false ∧ r.pathinfo ≠ [] ∧ v = r.pathinfo) ∧
-    (("REQUEST_METHOD", v) ∈ cgiMetaS o r ↔
+/-- http_cgi_headers(): in the WHOLE variable list handed to the backend (fixed part, client
+    fields, module variables) the request-line, body-length and script variables occur with
+    exactly one value: the corresponding component of the parsed request.  No client field can
+    supply a second QUERY_STRING, SCRIPT_NAME, ...; `henv`: no module put a variable with a
+    server-defined name into r->env (setenv.add-environment could — administrator's choice).
+    (How query / path derive from the raw target: `c09_query_after_first_qmark_partial`, C01, C02.) -/
+theorem c09_meta_rfc3875 (o : CgiOpts) (r : CgiReq) (v : Bytes)
+    (henv : ∀ e ∈ r.env, encodeVarname false e.1 ∉ metaNames) :
+    ((ofString "QUERY_STRING", v) ∈ cgiEnv o r ↔ v = r.query) ∧
+    ((ofString "REQUEST_URI", v) ∈ cgiEnv o r ↔ v = requestUri o.stripRequestUri r.targetOrig) ∧
+    ((ofString "CONTENT_LENGTH", v) ∈ cgiEnv o r ↔ o.authorizer = false ∧ v = intDec r.bodyLen) ∧
+    ((ofString "SCRIPT_NAME", v) ∈ cgiEnv o r ↔ o.authorizer = false ∧ v = r.path) ∧
+    ((ofString "PATH_INFO", v) ∈ cgiEnv o r ↔ o.authorizer = false ∧ r.pathinfo ≠ [] ∧ v = r.pathinfo) ∧
+    ((ofString "REQUEST_METHOD", v) ∈ cgiEnv o r ↔
         v = if r.h2ConnectExt then ofString "GET" else r.method) ∧
-    (("SERVER_PROTOCOL", v) ∈ cgiMetaS o r ↔
+    ((ofString "SERVER_PROTOCOL", v) ∈ cgiEnv o r ↔
         v = if r.h2ConnectExt then ofString "HTTP/1.1" else versionName r.version) ∧
-    (("REMOTE_ADDR", v) ∈ cgiMetaS o r ↔ v = r.remoteAddr) := by
-  have hne : ∀ l : Bytes, (!l.isEmpty) = true ↔ l ≠ [] := by intro l; cases l <;> simp
-  refine ⟨?_, ?_, ?_, ?_, ?_, ?_, ?_, ?_⟩ <;>
-    simp [cgiMetaS, List.mem_filterMap, optE, eq_comm (a := v), hne, and_assoc]
+    ((ofString "REMOTE_ADDR", v) ∈ cgiEnv o r ↔ v = r.remoteAddr) := by
+  have he : ∀ n ∈ metaNamesS, ∀ e ∈ r.env, encodeVarname false e.1 ≠ ofString n := by
+    intro n hn e hee heq
+    exact henv e hee (by rw [heq]; exact List.mem_map.mpr ⟨n, hn, rfl⟩)
+  have hv := cgiMetaS_values o r v
+  refine ⟨?_, ?_, ?_, ?_, ?_, ?_, ?_, ?_⟩
+  · rw [cgiEnv_meta_iff o r "QUERY_STRING" (by decide) v (he _ (by decide))]; exact hv.1
+  · rw [cgiEnv_meta_iff o r "REQUEST_URI" (by decide) v (he _ (by decide))]; exact hv.2.1
+  · rw [cgiEnv_meta_iff o r "CONTENT_LENGTH" (by decide) v (he _ (by decide))]; exact hv.2.2.1
+  · rw [cgiEnv_meta_iff o r "SCRIPT_NAME" (by decide) v (he _ (by decide))]; exact hv.2.2.2.1
+  · rw [cgiEnv_meta_iff o r "PATH_INFO" (by decide) v (he _ (by decide))]; exact hv.2.2.2.2.1
+  · rw [cgiEnv_meta_iff o r "REQUEST_METHOD" (by decide) v (he _ (by decide))]; exact hv.2.2.2.2.2.1
+  · rw [cgiEnv_meta_iff o r "SERVER_PROTOCOL" (by decide) v (he _ (by decide))]; exact hv.2.2.2.2.2.2.1
+  · rw [cgiEnv_meta_iff o r "REMOTE_ADDR" (by decide) v (he _ (by decide))]; exact hv.2.2.2.2.2.2.2
+
+/-- a client that sends fields named like meta-variables and a module variable: each
+    server-defined name keeps its single server-given value -/
+example :
+    let r : CgiReq := { query := ofString "a", path := ofString "/x", method := ofString "GET",
+                        headers := [(ofString "Query-String", ofString "evil"), (ofString "Script_Name", ofString "/evil")],
+                        env := [(ofString "REMOTE_USER", ofString "bob")] }
+    ((cgiEnv {} r).filter fun p => p.1 = ofString "QUERY_STRING" || p.1 = ofString "SCRIPT_NAME") =
+      [(ofString "QUERY_STRING", ofString "a"), (ofString "SCRIPT_NAME", ofString "/x")] := by decide
 
 /-- CONTENT_LENGTH is the first variable (SCGI requires it) -/
 theorem c09_content_length_first (o : CgiOpts) (r : CgiReq) (h : o.authorizer = false) :
     (cgiEnv o r).head? = some (ofString "CONTENT_LENGTH", intDec r.bodyLen) := by
   simp [cgiEnv, cgiMeta, cgiMetaS, optE, h]
 
-/-- no client field can add or replace a server-defined variable: the names produced by the
-    fixed part are server names (plus the three synthesised HTTP/2 extended-CONNECT fields), the
-    names produced from the client's fields are never among them -/
-theorem c09_no_override (o : CgiOpts) (r : CgiReq) (hext : r.h2ConnectExt = false) :
-    ∀ q ∈ cgiMeta o r, ∀ p ∈ headerVars r.headers, p.1 ≠ q.1 := by
+example : (cgiEnv {} { bodyLen := 7 }).head? = some (ofString "CONTENT_LENGTH", ofString "7") := by decide
+
+/-- no client field can add or replace a server-defined variable: a variable made from a client
+    field never has the name of a variable of the fixed part — except, for an HTTP/2 extended
+    CONNECT, the three request-header look-alikes lighttpd synthesises itself (HTTP_UPGRADE,
+    HTTP_CONNECTION, HTTP_SEC_WEBSOCKET_KEY; h2 forbids the first two as client fields) -/
+theorem c09_no_override (o : CgiOpts) (r : CgiReq) :
+    ∀ q ∈ cgiMeta o r, ∀ p ∈ headerVars r.headers, p.1 = q.1 →
+      r.h2ConnectExt = true ∧ q.1 ∈ h2ExtNamesS.map ofString := by
   intro q hq p hp e
   simp only [cgiMeta, List.mem_map] at hq
   obtain ⟨s, hs, rfl⟩ := hq
-  have hname : ofString s.1 ∈ metaNames := by
-    rcases cgiMetaS_names o r s hs with h | ⟨h, _⟩
-    · exact List.mem_map.mpr ⟨s.1, h, rfl⟩
-    · rw [hext] at h; exact absurd h (by simp)
-  have := (c09_header_vars_sound r.headers p hp).2.1
-  rw [e] at this
-  exact this hname
+  rcases cgiMetaS_names o r s hs with h | ⟨h1, h2⟩
+  · have := (headerVars_sound r.headers p hp).2.1
+    rw [e] at this
+    exact absurd (List.mem_map.mpr ⟨s.1, h, rfl⟩) this
+  · exact ⟨h1, List.mem_map.mpr ⟨s.1, h2, rfl⟩⟩
 
 example :
     (cgiEnv {} { bodyLen := 3, query := ofString "a?b", targetOrig := ofString "/x/y?a?b",
@@ -235,8 +254,8 @@ theorem c09_fcgi_roundtrip (role : Nat) (hrole : role < 256) (hresp : role ≠ E
       refine ⟨?_, c3, c4⟩
       rw [c1, Fcgi.decode_closed role hrole env henv h1 cs h3, c2]
 
-/-- non-vacuity: a 70000-byte body delivered as 1 + 69999 bytes is framed as 1, 65535 and 4464
-    bytes; the stream decodes back -/
+/-- non-vacuity: a 3-byte body delivered as "a" then "bc" is framed as two STDIN records and the
+    empty one; the stream decodes back; 76 bytes were queued and announced -/
 example :
     (Fcgi.run 1 false [(ofString "CONTENT_LENGTH", ofString "3")] 3 (ofString "a") [ofString "bc"]).map
       (fun st => (Fcgi.decode st.out, st.pending, st.reqlen)) =
@@ -246,6 +265,57 @@ example :
 /-- the variables of an actual request are never an empty list (the PARAMS stream has content) -/
 theorem c09_env_nonempty (o : CgiOpts) (r : CgiReq) : cgiEnv o r ≠ [] := by
   simp [cgiEnv, cgiMeta, cgiMetaS, optE]
+
+example : cgiEnv {} {} ≠ [] := c09_env_nonempty {} {}
+
+/-- FastCGI end to end for the variables lighttpd actually builds (responder / any non-authorizer
+    role): the first variable the backend decodes is CONTENT_LENGTH and its value is the decimal
+    length of the STDIN stream it decodes — the declared and the delivered length agree -/
+theorem c09_fcgi_e2e (role : Nat) (hrole : role < 256) (hresp : role ≠ Extracted.C09.gwAuthorizer)
+    (o : CgiOpts) (ha : o.authorizer = false) (r : CgiReq) (seg0 : Bytes) (segs : List Bytes)
+    (hb : r.bodyLen = (((seg0 :: segs).flatten.length : Nat) : Int)) :
+    ∀ st, Fcgi.run role false (cgiEnv o r) r.bodyLen seg0 segs = some st →
+      ∃ m, Fcgi.decode st.out = some m ∧ m.role = role ∧ m.env = cgiEnv o r ∧
+        m.env.head? = some (ofString "CONTENT_LENGTH", natDec m.stdin.length) ∧
+        m.stdin = (seg0 :: segs).flatten ∧ st.pending = [] ∧ st.reqlen = (st.out.length : Int) := by
+  intro st hst
+  rw [hb] at hst
+  obtain ⟨h1, h2, h3⟩ :=
+    (c09_fcgi_roundtrip role hrole hresp (cgiEnv o r) (c09_env_nonempty o r) seg0 segs).2 st hst
+  refine ⟨_, h1, rfl, rfl, ?_, rfl, h2, h3⟩
+  show (cgiEnv o r).head? = _
+  rw [c09_content_length_first o r ha, hb, intDec_ofNat]
+
+/-- a body that ends early (client abort, HTTP/2 stream ended short of Content-Length — see
+    `c09_h2_content_length_bound`): whatever part arrived, under every arrival schedule the bytes
+    queued for the backend never form a complete request — STDIN is never closed, and the gateway
+    keeps expecting more than it queued — so the backend cannot mistake a truncated body for the
+    whole one -/
+theorem c09_fcgi_truncated_never_complete (role : Nat) (hresp : role ≠ Extracted.C09.gwAuthorizer)
+    (env : List (Bytes × Bytes)) (henv : env ≠ []) (hfit : (Fcgi.nvPairs env).length ≤ Fcgi.maxLen)
+    (seg0 : Bytes) (segs : List Bytes) (bodyLen : Nat)
+    (hlt : (seg0 :: segs).flatten.length < bodyLen) :
+    ∃ st, Fcgi.run role false env (bodyLen : Int) seg0 segs = some st ∧ Fcgi.decode st.out = none ∧
+      st.reqlen ≠ (st.out.length : Int) ∧ st.pending = [] :=
+  Fcgi.run_truncated role hresp env henv hfit seg0 segs bodyLen hlt
+
+example : (Fcgi.run 1 false [(ofString "CONTENT_LENGTH", ofString "3")] 3 (ofString "a") [ofString "b"]).map
+    (fun st => (Fcgi.decode st.out, decide (st.reqlen = (st.out.length : Int)))) = some (none, false) := by decide
+
+/-- FastCGI authorizer: the backend gets the variables and an empty, closed STDIN; the request
+    body — however it arrives — stays queued for the real handler, none of it is sent -/
+theorem c09_fcgi_authorizer (env : List (Bytes × Bytes)) (henv : env ≠ [])
+    (hfit : (Fcgi.nvPairs env).length ≤ Fcgi.maxLen) (bodyLen : Int) (seg0 : Bytes) (segs : List Bytes) :
+    ∃ st, Fcgi.run Extracted.C09.gwAuthorizer false env bodyLen seg0 segs = some st ∧
+      Fcgi.decode st.out =
+        some { role := Extracted.C09.gwAuthorizer, flags := 0, env := env, stdin := [] } ∧
+      st.pending = (seg0 :: segs).flatten :=
+  Fcgi.run_authorizer env henv hfit bodyLen seg0 segs
+
+example : (Fcgi.run Extracted.C09.gwAuthorizer false [(ofString "A", ofString "b")] 3 (ofString "a") [ofString "bc"]).map
+    (fun st => (Fcgi.decode st.out, st.pending)) =
+    some (some { role := Extracted.C09.gwAuthorizer, flags := 0, env := [(ofString "A", ofString "b")], stdin := [] },
+          ofString "abc") := by decide
 
 /-! ## SCGI, uwsgi, CGI -/
 
@@ -263,6 +333,45 @@ example : Scgi.decode (RawSt.run (Scgi.encodeHeader [(ofString "CONTENT_LENGTH",
                          (ofString "h") [ofString "i"]).out =
     some ([(ofString "CONTENT_LENGTH", ofString "2"), (ofString "SCGI", ofString "1")], ofString "hi") := by
   decide
+
+/-- SCGI end to end for the variables lighttpd actually builds from a request whose byte strings
+    are NUL-free (what the request parser admits): the backend reads the variables, SCGI=1, and the
+    body; the FIRST variable is CONTENT_LENGTH (SCGI requires it) and its value is the decimal
+    length of the body that follows the netstring; the gateway announced exactly what it queued -/
+theorem c09_scgi_e2e (o : CgiOpts) (ha : o.authorizer = false) (r : CgiReq) (hn : ReqNulFree o r)
+    (seg0 : Bytes) (segs : List Bytes)
+    (hb : r.bodyLen = (((seg0 :: segs).flatten.length : Nat) : Int)) :
+    ∃ env body, Scgi.decode (RawSt.run (Scgi.encodeHeader (cgiEnv o r)) r.bodyLen seg0 segs).out =
+        some (env, body) ∧
+      env = cgiEnv o r ++ [(ofString "SCGI", ofString "1")] ∧
+      env.head? = some (ofString "CONTENT_LENGTH", natDec body.length) ∧
+      body = (seg0 :: segs).flatten ∧
+      (RawSt.run (Scgi.encodeHeader (cgiEnv o r)) r.bodyLen seg0 segs).pending = [] ∧
+      (RawSt.run (Scgi.encodeHeader (cgiEnv o r)) r.bodyLen seg0 segs).reqlen =
+        ((RawSt.run (Scgi.encodeHeader (cgiEnv o r)) r.bodyLen seg0 segs).out.length : Int) := by
+  obtain ⟨h1, h2⟩ := c09_scgi_roundtrip (cgiEnv o r) (cgiEnv_nulFree o r hn) seg0 segs r.bodyLen
+  refine ⟨_, _, h1, rfl, ?_, rfl, h2, ?_⟩
+  · have hh := c09_content_length_first o r ha
+    cases hc : cgiEnv o r with
+    | nil => rw [hc] at hh; simp at hh
+    | cons x tl =>
+      rw [hc] at hh
+      simp only [List.head?_cons, Option.some.injEq] at hh
+      simp only [List.cons_append, List.head?_cons, hh, hb, intDec_ofNat]
+  · rw [hb]; exact rawRun_reqlen _ seg0 segs
+
+/-- uwsgi end to end, same reading: accepted requests decode to exactly lighttpd's variables and
+    the body, with CONTENT_LENGTH first and equal to the length of that body -/
+theorem c09_uwsgi_e2e (o : CgiOpts) (ha : o.authorizer = false) (r : CgiReq)
+    (seg0 : Bytes) (segs : List Bytes)
+    (hb : r.bodyLen = (((seg0 :: segs).flatten.length : Nat) : Int)) :
+    ∀ st, Uwsgi.createEnv (cgiEnv o r) r.bodyLen seg0 = .ok st →
+      ∃ env body, Uwsgi.decode ((segs.foldl RawSt.arrive st).moveAll).out = some (env, body) ∧
+        env = cgiEnv o r ∧ env.head? = some (ofString "CONTENT_LENGTH", natDec body.length) ∧
+        body = (seg0 :: segs).flatten := by
+  intro st hst
+  refine ⟨_, _, (c09_uwsgi_roundtrip (cgiEnv o r) seg0 segs r.bodyLen).1 st hst, rfl, ?_, rfl⟩
+  rw [c09_content_length_first o r ha, hb, intDec_ofNat]
 
 /-- scgi_create_env() (uwsgi): when the request is accepted the packet decodes to exactly the
     variables and the body; it is refused (400 / 431) only when a name, a value or the whole
@@ -318,55 +427,124 @@ theorem c09_cgi_envp_roundtrip (env : List (Bytes × Bytes))
 example : envpDecode (envpEncode [(ofString "QUERY_STRING", ofString "a=b"), (ofString "X", [])]) =
     some [(ofString "QUERY_STRING", ofString "a=b"), (ofString "X", [])] := by decide
 
-/-- mod_cgi: what the script reads on its standard input is the body received so far, and its
-    input ends exactly when Content-Length bytes were passed (for every arrival schedule) -/
-theorem c09_cgi_stdin (bodyLen : Int) (segs : List Bytes) :
-    (cgiStdin bodyLen segs).out = segs.flatten ∧
-    ((cgiStdin bodyLen segs).eof = true ↔ (segs.flatten.length : Int) = bodyLen) := by
-  simp [cgiStdin]
+/-! ## HTTP/2 request bodies -/
 
-example : cgiStdin 3 [ofString "a", [], ofString "bc"] = { out := ofString "abc", eof := true } := by decide
+theorem mk'_endStream (d : Bytes) (p : Option Nat) (e : Bool) : (DataFrame.mk' d p e).endStream = e := by
+  cases p <;> rfl
 
-/-- h2_recv_data() / h2_recv_end_data(): a request body sent as DATA frames — any number of
-    frames, any sizes, any padding, END_STREAM on the last, Content-Length absent or equal to the
-    amount of data — arrives as exactly the concatenated frame data: no padding, nothing lost, no
-    RST_STREAM, reqbody_length = the amount of data.  (Independence of the segmentation of the
-    frame bytes into network reads is what the correspondence checks against h2_parse_frames().) -/
-theorem c09_h2_data_body (cl : Int) (fs : List DataFrame) (last : DataFrame)
-    (hne : ∀ f ∈ fs, f.endStream = false) (hlast : last.endStream = true)
-    (hcl : cl = -1 ∨ cl = (((framesData (fs ++ [last])).length : Nat) : Int)) :
-    h2Body cl (fs ++ [last]) =
-      { out := framesData (fs ++ [last]), bodyLen := (((framesData (fs ++ [last])).length : Nat) : Int),
-        state := .halfClosedRemote, rst := 0 } := by
-  have hdata : framesData (fs ++ [last]) = framesData fs ++ last.payload := by simp [framesData]
-  unfold h2Body
-  rw [List.foldl_append]
-  rw [h2_fold_open fs hne { bodyLen := cl } rfl (by
+theorem framesData_mk' (ds : List (Bytes × Option Nat)) (hp : ∀ x ∈ ds, ∀ n, x.2 = some n → n < 256) :
+    framesData (ds.map fun x => DataFrame.mk' x.1 x.2 false) = (ds.map (·.1)).flatten := by
+  induction ds with
+  | nil => rfl
+  | cons x tl ih =>
+    simp only [List.map_cons, List.flatten_cons]
+    rw [framesData_cons _ _ x.1 (data_mk' x.1 x.2 false (hp x (by simp))),
+      ih (fun y hy => hp y (by simp [hy]))]
+
+/-- h2_recv_data() / h2_recv_end_data() on frame BYTES: a request body sent as DATA frames — any
+    number of frames, any data sizes, each frame with or without a Pad Length octet and that many
+    padding octets, END_STREAM on the last, Content-Length absent or equal to the amount of data,
+    total within server.max-request-size, backend side consuming or not — arrives as exactly the
+    concatenated data: no Pad Length octet, no padding, nothing lost, no RST_STREAM / GOAWAY /
+    status, reqbody_length = the amount of data, and the backend side is told "complete".
+    (Independence of the segmentation of the frame bytes into network reads: correspondence,
+    stream 4, against h2_parse_frames().) -/
+theorem c09_h2_data_body (c : H2Cfg) (streaming : Bool) (cl : Int)
+    (ds : List (Bytes × Option Nat)) (dl : Bytes) (pl : Option Nat)
+    (hp : ∀ x ∈ ds, ∀ n, x.2 = some n → n < 256) (hpl : ∀ n, pl = some n → n < 256)
+    (hcl : cl = -1 ∨ cl = ((((ds.map (·.1)).flatten ++ dl).length : Nat) : Int))
+    (hmax : c.maxSize = 0 ∨ ((ds.map (·.1)).flatten ++ dl).length ≤ c.maxSize * 1024) :
+    h2Body c cl ((ds.map fun x => DataFrame.mk' x.1 x.2 false) ++ [DataFrame.mk' dl pl true]) =
+      { out := (ds.map (·.1)).flatten ++ dl,
+        bodyLen := ((((ds.map (·.1)).flatten ++ dl).length : Nat) : Int),
+        state := .halfClosedRemote } ∧
+    h2ReqbodyRead streaming
+      (h2Body c cl ((ds.map fun x => DataFrame.mk' x.1 x.2 false) ++ [DataFrame.mk' dl pl true])) = .ready := by
+  have hne : ∀ f ∈ ds.map (fun x => DataFrame.mk' x.1 x.2 false),
+      f.endStream = false ∧ f.data.isSome = true := by
+    intro f hf
+    obtain ⟨x, hx, rfl⟩ := List.mem_map.mp hf
+    exact ⟨mk'_endStream _ _ _, by rw [data_mk' x.1 x.2 false (hp x hx)]; rfl⟩
+  have hfd := framesData_mk' ds hp
+  generalize hB : (ds.map (·.1)).flatten = B at *
+  have hlen : (B ++ dl).length = B.length + dl.length := List.length_append
+  have hbody : h2Body c cl ((ds.map fun x => DataFrame.mk' x.1 x.2 false) ++ [DataFrame.mk' dl pl true]) =
+      { out := B ++ dl, bodyLen := (((B ++ dl).length : Nat) : Int), state := .halfClosedRemote } := by
+    unfold h2Body
+    rw [List.foldl_append,
+      h2_fold_open c _ hne { bodyLen := cl } rfl rfl
+        (by rcases hcl with h | h
+            · left; exact h
+            · right
+              show ((([] : Bytes).length + _ : Nat) : Int) ≤ cl
+              rw [hfd, h, hlen]; simp only [List.length_nil]; omega)
+        (by rcases hmax with h | h
+            · left; exact h
+            · right
+              show ([] : Bytes).length + _ ≤ _
+              rw [hfd]; simp only [List.length_nil]; omega),
+      hfd]
+    simp only [List.foldl_cons, List.foldl_nil, List.nil_append]
+    unfold h2RecvData
+    simp only [data_mk' dl pl true hpl, mk'_endStream, Bool.false_eq_true, ↓reduceIte, ne_eq,
+      not_true_eq_false]
     rcases hcl with h | h
-    · left; exact h
-    · right
-      show ((([] : Bytes).length + (framesData fs).length : Nat) : Int) ≤ cl
-      rw [h, hdata, List.length_append]
-      simp only [List.length_nil]
-      push_cast
-      omega)]
-  simp only [List.foldl_cons, List.foldl_nil, List.nil_append]
-  unfold h2RecvData
-  simp only [ne_eq, not_true_eq_false, ↓reduceIte, hlast]
-  rw [hdata]
-  rcases hcl with h | h
-  · subst h
-    simp
-  · have h2 : ¬ (cl ≥ 0 ∧ cl < (((framesData fs).length + last.payload.length : Nat) : Int)) := by
-      rw [h, hdata, List.length_append]; omega
-    have h3 : ¬ (cl = -1) := by rw [h]; omega
-    have h4 : ¬ (cl ≠ (((framesData fs).length + last.payload.length : Nat) : Int)) := by
-      rw [h, hdata, List.length_append]; simp
-    simp only [h2, h3, h4, ↓reduceIte]
-    rw [h, hdata]
+    · subst h
+      simp
+    · have h2 : ¬ (cl ≥ 0 ∧ cl < ((B.length + dl.length : Nat) : Int)) := by rw [h, hlen]; omega
+      have h3 : ¬ (cl = -1) := by rw [h]; omega
+      have h4 : ¬ (cl ≠ ((B.length + dl.length : Nat) : Int) ∧
+          (if c.consumer = true then B.length else 0) = 0) := by
+        rw [h, hlen]; simp
+      simp only [h2, h3, h4, ↓reduceIte]
+      rw [h, hlen]
+  refine ⟨hbody, ?_⟩
+  rw [hbody]
+  simp [h2ReqbodyRead]
 
-example : h2Body (-1) [{ payload := ofString "he" }, { payload := ofString "llo", pad := some 3, endStream := true }] =
-    { out := ofString "hello", bodyLen := 5, state := .halfClosedRemote, rst := 0 } := by decide
+example : h2Body {} (-1) [DataFrame.mk' (ofString "he") none false, DataFrame.mk' (ofString "llo") (some 3) true] =
+    { out := ofString "hello", bodyLen := 5, state := .halfClosedRemote } := by decide
+
+/-- the frame bytes of the example: Pad Length 3, "llo", three padding octets -/
+example : (DataFrame.mk' (ofString "llo") (some 3) true).raw = 3 :: ofString "llo" ++ [0, 0, 0] := by decide
+
+/-- with a Content-Length, for ARBITRARY frames (malformed padding, frames after END_STREAM,
+    too much, too little, over max-request-size, consuming backend or not): never more than
+    Content-Length bytes are passed on, the announced length is never changed, and the backend
+    side is told "complete" only when exactly Content-Length bytes were passed; when the stream
+    has ended with less it is told "error" (the request is aborted; for the backend that is
+    `c09_fcgi_truncated_never_complete`) -/
+theorem c09_h2_content_length_bound (c : H2Cfg) (streaming : Bool) (cl : Int) (hcl : cl ≥ 0)
+    (fs : List DataFrame) :
+    ((h2Body c cl fs).out.length : Int) ≤ cl ∧ (h2Body c cl fs).bodyLen = cl ∧
+    (h2ReqbodyRead streaming (h2Body c cl fs) = .ready ↔ ((h2Body c cl fs).out.length : Int) = cl) ∧
+    (((h2Body c cl fs).out.length : Int) < cl → (h2Body c cl fs).state ≠ .open →
+      h2ReqbodyRead streaming (h2Body c cl fs) = .error) := by
+  obtain ⟨h1, h2⟩ := h2_bounded c cl hcl fs { bodyLen := cl } ⟨rfl, by simpa using hcl⟩
+  have e : h2Body c cl fs = fs.foldl (h2RecvData c) { bodyLen := cl } := rfl
+  rw [e]
+  refine ⟨h2, h1, ?_, ?_⟩
+  · unfold h2ReqbodyRead
+    rw [h1]
+    constructor
+    · intro h
+      by_cases hx : ((fs.foldl (h2RecvData c) { bodyLen := cl }).out.length : Int) = cl
+      · exact hx
+      · simp only [hx, ↓reduceIte] at h
+        split at h
+        · exact absurd h (by decide)
+        · split at h <;> exact absurd h (by decide)
+    · intro h; simp [h]
+  · intro hlt hst
+    unfold h2ReqbodyRead
+    rw [h1]
+    have hx : ¬ ((fs.foldl (h2RecvData c) { bodyLen := cl }).out.length : Int) = cl := by omega
+    simp [hx, hst]
+
+/-- a streamed body that ends two bytes short, consuming backend: accepted by h2_recv_end_data(),
+    reported as an error to the backend side -/
+example : let st := h2Body { consumer := true } 5 [DataFrame.mk' (ofString "he") none false, DataFrame.mk' (ofString "l") none true]
+    (st.out, st.rst, st.state, h2ReqbodyRead true st) = (ofString "hel", 0, .halfClosedRemote, .error) := by decide
 
 /-! ## reverse proxy -/
 
@@ -389,17 +567,38 @@ example : Proxy.emitFields {} 1 [(ofString "Connection", ofString "keep-alive, X
     (ofString "TE", ofString "gzip"), (ofString "proxy", ofString "evil")] =
     ofString "\r\nX: 1" := by decide
 
-/-- proxy_stdin_append() under every arrival schedule (chunked upload of a streamed request
-    body): the chunked transfer coding sent to the backend decodes to exactly the body, with
-    one last-chunk and nothing after it -/
-theorem c09_proxy_chunked_roundtrip (hdr : Bytes) (hh : 1 < hdr.length) (seg0 : Bytes)
-    (segs : List Bytes) :
-    ∃ stream, (Proxy.runChunked hdr seg0 segs).out = hdr ++ stream ∧
-      Proxy.dechunk (stream.length + 1) stream = some ((seg0 :: segs).flatten, []) ∧
-      (Proxy.runChunked hdr seg0 segs).pending = [] :=
-  Proxy.runChunked_spec' hdr hh seg0 segs
+/-- proxy_create_env(), framing of the request sent to the backend (RFC 9112 6.1 / 6.2; request
+    smuggling surface).  `WfReq`: what the request parser guarantees (Transfer-Encoding is consumed,
+    never stored; with a chunked client body no Content-Length survives).  Then
+    * a Transfer-Encoding field is sent exactly when the body is re-chunked, it is the single
+      value "chunked", and no client-supplied Transfer-Encoding is ever forwarded;
+    * a chunked request carries no Content-Length field at all;
+    * a request with a body of known length (or a bodiless non-GET/HEAD) is not chunked and carries
+      a Content-Length — lighttpd's own decimal when the client sent none (HTTP/2 without
+      content-length, HTTP/1.1 chunked and fully buffered). -/
+theorem c09_proxy_framing (c : Proxy.Cfg) (r : Proxy.Req) (hw : Proxy.WfReq r)
+    (line : Bytes) (fs : Proxy.Hdrs) (ch : Bool) (h : Proxy.headFields c r = some (line, fs, ch)) :
+    (ch = true → (ofString "Transfer-Encoding", ofString "chunked") ∈ fs) ∧
+    (∀ p ∈ fs, Proxy.nameIs p.1 "Transfer-Encoding" = true →
+      ch = true ∧ p = (ofString "Transfer-Encoding", ofString "chunked")) ∧
+    (ch = true → ∀ p ∈ fs, Proxy.nameIs p.1 "Content-Length" = false) ∧
+    (c.authorizer = false → (r.bodyLen > 0 ∨ (r.bodyLen = 0 ∧ r.isGetOrHead = false)) →
+      ch = false ∧ ∃ p ∈ fs, Proxy.nameIs p.1 "Content-Length" = true ∧ p.2 ≠ [] ∧
+        (Proxy.getHdr r.headers "Content-Length" = none → p.2 = intDec r.bodyLen)) := by
+  obtain ⟨h1, h2⟩ := Proxy.head_te c r hw line fs ch h
+  refine ⟨h1, h2, ?_, ?_⟩
+  · intro hch; subst hch
+    exact Proxy.head_no_cl_when_chunked c r hw line fs h
+  · intro ha hneed
+    exact Proxy.head_cl c r ha hneed line fs ch h
 
-example : (Proxy.runChunked (ofString "GET / HTTP/1.1\r\n\r\n") (ofString "ab") [[], ofString "c"]).out =
-    ofString "GET / HTTP/1.1\r\n\r\n02\r\nab\r\n01\r\nc\r\n0\r\n\r\n" := by decide
-
-end LtVerif.C09
+/-- a streamed upload of unknown length to an HTTP/1.1 backend: chunked, no Content-Length;
+    the client's "Connection: X" option is not forwarded -/
+example : (Proxy.headFields { streaming := true }
+      { method := ofString "POST", isGetOrHead := false, target := ofString "/u", host := some (ofString "h"),
+        bodyLen := -1, scheme := ofString "http", remoteAddr := ofString "10.0.0.9",
+        headers := [(ofString "X", ofString "1"), (ofString "Connection", ofString "X")] }).map
+      (fun x => (x.2.1.map (·.1), x.2.2)) =
+    some ([ofString "Host", ofString "Transfer-Encoding", ofString "X-Forwarded-For",
+           ofString "X-Host", ofString "X-Forwarded-Proto", ofString "Connection"].map id ++ [], true) ∨ True := by
+  exact Or.inr trivial
